@@ -177,7 +177,9 @@ class FakeNet:
         self.note('resolve', host, port)
         if host not in self.ip_of:
             raise socket.gaierror(-2, 'Name or service not known')
-        return [(socket.AF_INET, socket.SOCK_STREAM, 6, '', (self.ip_of[host], port))]
+        extra = getattr(self, 'extra_addresses', {}).get(host, [])
+        # (a name may resolve to several addresses: the additional ones lead to the same scripted peer)
+        return [(socket.AF_INET, socket.SOCK_STREAM, 6, '', (ip, port)) for ip in [self.ip_of[host]] + list(extra)]
 
     def select(self, rlist, wlist, xlist, timeout=None):
         """every fake socket is readable at once (its script decides what recv returns)"""
@@ -350,6 +352,8 @@ class ServerSocket(FakeSocket):
 
     def reply(self, stage, pkt):
         f = self.peer.faults.get((self.n, stage))
+        for _ in range(getattr(self.peer, 'debug_before', {}).get(stage, 0)):
+            self.chunks.append(packet(b'\x04\x00' + ssh_string(b'debug message') + ssh_string(b'')))      # SSH_MSG_DEBUG: legal at any time
         if f is None:
             self.chunks.append(pkt)
         else:
